@@ -2,6 +2,7 @@ package model
 
 import (
 	"bytes"
+	"encoding/json"
 
 	"github.com/libp2p/go-libp2p/core/peer"
 	"github.com/libp2p/go-libp2p/core/record"
@@ -63,6 +64,10 @@ type c18foreign struct {
 }
 
 func (r *c18foreign) Domain() string { return r.domain }
+
+// (its own serialisation — the same JSON — so that nothing of the library's
+// IngestRequest has run in the reading process before ReadIngestRequest)
+func (r *c18foreign) MarshalRecord() ([]byte, error) { return json.Marshal(&r.IngestRequest) }
 
 // C18 (expected domain): the ingest envelope domain is the protocol constant
 // "indexer-ingest-request-record". A request the named provider sealed for that
